@@ -186,3 +186,18 @@ class ConcreteProvider:
 
     def is_true(self, cond):
         return bool(cond)
+
+    def is_integer(self, x, tol=1e-7):
+        return abs(float(x) - round(float(x))) <= tol
+
+    def both(self, a, b):
+        return bool(a) and bool(b)
+
+    def either(self, a, b):
+        return bool(a) or bool(b)
+
+    def implies(self, a, b):
+        return (not bool(a)) or bool(b)
+
+    def const(self, x):
+        return float(x)
